@@ -128,7 +128,13 @@ def check_packet(ctx, rng, is_data, kind, content_len, mut_budget):
                     # full-name layout: the parameters digest stays mid-name and an implicit digest comes last
                     in_comps.append(rc.comp(1, gen.rand_bytes(rng, 32)))
                     ctx.event('interest-name-ends-with-implicit-digest')
-            wire = bytes(make_interest(in_comps, prm, payload if rng.random() < 0.8 else None, rec))
+            # the name in any accepted form (a placeholder may then be spelled as the URI string 'params-sha256=...' inside a list)
+            form, fl = pkts.name_form(rng, in_comps)
+            if ph is not None and rng.random() < 0.5:
+                form, fl = [rc.comp_to_canonical_uri(c) if rc.comp_parts(c)[0] == 2 else bytes(c) for c in in_comps], 'list-with-textual-digest-placeholder'
+            w['form'] = fl
+            ctx.klass('interest-name-form-' + fl)
+            wire = bytes(make_interest(form, prm, payload if rng.random() < 0.8 else None, rec))
     except Exception as e:   # noqa
         ctx.report(f'encode-raises:{type(e).__name__}@{raising_site(e)[0]}', f'encoder raised {e!r}', w)
         return
